@@ -28,6 +28,7 @@ unsigned long long ha_val_fn(const KSI_Integer *p) { if (p == NULL) return 0; re
 #pragma CPROVER check push
 #pragma CPROVER check disable "pointer"
 #pragma CPROVER check disable "pointer-primitive"
+#pragma CPROVER check disable "pointer-overflow"
 
 /* ---- range predicates: exactly the documented ranges ---------------------------------------- */
 static bool isMaxLevelValid(KSI_uint64_t val)
